@@ -96,46 +96,48 @@ def explore(rep, binary, pool, sizes, qmax, expand_chars, max_states):
     truncated = False
     while frontier:
         rounds += 1
-        lines = [{"state": s, "event": e} for s in frontier for e in evs]
-        chunks = [lines[i::16] for i in range(16)]
-        chunks = [c for c in chunks if c]
-        logs = pool.starmap(drive, [(binary, "tui", c) for c in chunks])
         nxt = []
-        for c, log in zip(chunks, logs):
-            if len(log) != len(c):
-                raise Inconclusive(f"tui driver answered {len(log)} of {len(c)} transitions")
-            for cmd, res in zip(c, log):
-                transitions += 1
-                rep.evaluations += 1
-                before, after = res.get("before"), res.get("after")
-                if res.get("result") == "bad-event" or before is None:
-                    raise Inconclusive(f"tui driver rejected {cmd}")
-                if key_of(before) != key_of(cmd["state"]):
-                    raise Inconclusive(f"tui driver rebuilt {before} from {cmd['state']}")
-                e = cmd["event"]
-                rep.cls("event:" + ev_name(e))
-                rep.cls(f"rows:{before['n']}")
-                if res.get("result") == "ok" and key_of(after) != key_of(before):
-                    rep.hashes.add(hash((key_of(before), ev_name(e))))
-                for cname, text in judge(before, e, after, res.get("result"), res.get("panic")):
-                    sig = f"C17:{cname}:{ev_name(e)}" if cname in ("panic", "selection-range") else f"C17:{cname}"
-                    rep.violation(sig, text, {"mode": "tui", "state": cmd["state"], "event": e})
-                if res.get("result") != "ok":
-                    continue
-                if len(rep.samples) < 4 and key_of(after) != key_of(before) and rounds > 1:
-                    rep.sample({"before": before, "event": ev_name(e), "after": after})
-                k = key_of(after)
-                if k in seen:
-                    continue
-                q = after["query"]
-                if len(q) > qmax or any(ch not in expand_chars for ch in q):
-                    rep.cls("not-expanded:query-beyond-bound")
-                    continue
-                if len(seen) >= max_states:
-                    truncated = True
-                    continue
-                seen.add(k)
-                nxt.append(after)
+        # the frontier is worked off in slices, so that memory stays bounded whatever its size
+        for lo in range(0, len(frontier), 8000):
+          lines = [{"state": s, "event": e} for s in frontier[lo:lo + 8000] for e in evs]
+          chunks = [lines[i::16] for i in range(16)]
+          chunks = [c for c in chunks if c]
+          logs = pool.starmap(drive, [(binary, "tui", c) for c in chunks])
+          for c, log in zip(chunks, logs):
+              if len(log) != len(c):
+                  raise Inconclusive(f"tui driver answered {len(log)} of {len(c)} transitions")
+              for cmd, res in zip(c, log):
+                  transitions += 1
+                  rep.evaluations += 1
+                  before, after = res.get("before"), res.get("after")
+                  if res.get("result") == "bad-event" or before is None:
+                      raise Inconclusive(f"tui driver rejected {cmd}")
+                  if key_of(before) != key_of(cmd["state"]):
+                      raise Inconclusive(f"tui driver rebuilt {before} from {cmd['state']}")
+                  e = cmd["event"]
+                  rep.cls("event:" + ev_name(e))
+                  rep.cls(f"rows:{before['n']}")
+                  if res.get("result") == "ok" and key_of(after) != key_of(before):
+                      rep.hashes.add(hash((key_of(before), ev_name(e))))
+                  for cname, text in judge(before, e, after, res.get("result"), res.get("panic")):
+                      sig = f"C17:{cname}:{ev_name(e)}" if cname in ("panic", "selection-range") else f"C17:{cname}"
+                      rep.violation(sig, text, {"mode": "tui", "state": cmd["state"], "event": e})
+                  if res.get("result") != "ok":
+                      continue
+                  if len(rep.samples) < 4 and key_of(after) != key_of(before) and rounds > 1:
+                      rep.sample({"before": before, "event": ev_name(e), "after": after})
+                  k = key_of(after)
+                  if k in seen:
+                      continue
+                  q = after["query"]
+                  if len(q) > qmax or any(ch not in expand_chars for ch in q):
+                      rep.cls("not-expanded:query-beyond-bound")
+                      continue
+                  if len(seen) >= max_states:
+                      truncated = True
+                      continue
+                  seen.add(k)
+                  nxt.append(after)
         frontier = nxt
     rep.extra["states"] = len(seen)
     rep.extra["transitions"] = transitions
